@@ -31,6 +31,8 @@ impl EepromRange {
                  && old(self).byte_pos < old(self).end
                  && r->Ok_0 == old(self).reader.byte(old(self).byte_pos as int),
         r is Err ==> final(self).byte_pos == old(self).byte_pos,
+@before "return Err(Error::Eeprom(EepromError::SectionOverrun));"
+    proof { assert(self.byte_pos >= self.end); }       // refused ONLY at the end of the window
 @*/
 
 /*@fn file=src/eeprom/mod.rs impl="impl<P> embedded_io_async::Read for EepromRange<P>" name=read subst="Self::Error=>Error" props=C12,C13 attr="#[verifier::loop_isolation(false)] #[verifier::allow_complex_invariants]"
